@@ -71,11 +71,8 @@ func c14lenLE1(st *flow.State, r string) bool {
 
 func c14Split(e *c14env) {
 	c := e.c
-	f := fn(c, mq, "", "splitTopic")
-	if f == nil {
-		return
-	}
-	cons := fname(mq, "", "splitTopic")
+	f := e.roles.split.f
+	cons := e.roles.split.cons
 
 	// ---- roles
 	var result types.Object
